@@ -208,7 +208,9 @@ def inline_view(fns, known):
     plain = {}
     for f in fns:
         # (a method of a trait impl counts when a call resolves to it statically: `impl From<EffectId> for Slot`)
-        if f['kind'] in ('Fn', 'AssocFn') and not f.get('coroutine') and ((f.get('assoc') or {}).get('impl') or not (f.get('assoc') or {}).get('trait')):
+        # ... but not a derived one: a derived eq / clone / default is a primitive the rules know by its trait method)
+        if f['kind'] in ('Fn', 'AssocFn') and not f.get('coroutine') and not (f.get('assoc') or {}).get('derived') and \
+                ((f.get('assoc') or {}).get('impl') or not (f.get('assoc') or {}).get('trait')):
             plain.setdefault(norm(f['path']), []).append(f)
     unknown = {np: gs[0] for np, gs in plain.items() if np not in known and len(gs) == 1}
     if not unknown:
